@@ -44,8 +44,9 @@ LIBERTIES = (
     # [A] "Only unique RHS Array elements are appended": are duplicates INSIDE the
     # right-hand array appended once or each time?  ([C]: both accepted.)
     "array_unique_dedups_rhs",        # absent: `[1] <- [2,2]` = [1,2,2]; present: [1,2]
-    # [O] UNIQUE/DEEP: is a right-hand record compared with right-hand records appended
+    # [O] UNIQUE: is a right-hand record compared with right-hand records appended
     # earlier in the same merge (absent: yes) or only with the original left ones (present)?
+    # (DEEP has no such liberty: records are matched by identity against the whole result so far.)
     "aoh_rhs_dups_kept",
     # An EMPTY right-hand sequence is neither visibly an Array nor an Array-of-Hashes:
     "empty_seq_is_aoh",               # absent: the --arrays policy governs it; present: --aoh
@@ -292,8 +293,9 @@ def _merge_aoh(l, r, cfg, rpath, respath, trace, epath=None):
         hit = None
         for j, le in enumerate(out):
             if kind(le) == "map" and idkey in le and veq(le[idkey], e[idkey]):
-                if j >= n_l and _lib(cfg, trace, "aoh_rhs_dups_kept"):
-                    continue
+                # "deep by identity key": a record appended earlier in this merge is a record of the result like
+                # any other, so a later right-hand record with the same identity combines with it (no liberty:
+                # two records with one identity in the result would not be a merge BY identity)
                 hit = j
                 break
         if hit is None:
@@ -348,6 +350,11 @@ def _merge_value(l, r, cfg, rpath, respath, trace):
     """Value `r` of the right-hand document meets value `l` under the same key."""
     kr = kind(r)
     if kr == "scalar":
+        # a per-path rule NAMING this scalar: `left` keeps the left value (the only mode that can differ
+        # from overriding); document-wide defaults never apply to scalars
+        if rpath is not None and cfg.mode_for is not None and cfg.mode_for(rpath, "scalar") == "left":
+            _ev(trace, "cell", kind(l), "scalar", "rule-left")
+            return l
         _ev(trace, "cell", kind(l), "scalar", "override")
         return r                      # [S][help] right-hand scalars override ([C]: whatever was there)
     if kr == "map":
